@@ -387,10 +387,37 @@ def prov(v: dict, env: List[dict], x: dict, inv: dict, mode: str, out: List[str]
     if k in ("scalar", "equals"):
         if e != "preds":
             out.append(f"{where}: scalar reported {e}")
+            return
+        # a predicate failure holds the value the predicates were given: the coerced, then preprocessed value
+        # (computed here with the real coercer and processor objects, not with the model)
+        exp = later_stage_value(v, env, x)
+        if exp is not None and norm(inv["value"]) != norm(exp):
+            out.append(f"{where}: predicate error holds {json.dumps(norm(inv['value']))[:80]}, the coerced / "
+                       f"preprocessed value is {json.dumps(norm(exp))[:80]}")
         return
     if k in ("none", "isDict"):
         out.append(f"{where}: {k} reported {e}")
         return
+
+
+def later_stage_value(v: dict, env: List[dict], x: dict) -> Optional[dict]:
+    """what a scalar / equality validator has in hand after coercion and preprocessing, computed with the real
+    coercer and processors of a freshly built validator (None: cannot be computed model-free)"""
+    try:
+        ctx = wire.Ctx()
+        rv = build.build(ctx, v, env)
+        val = wire.mk_value(ctx, x)
+        co = getattr(rv, "coerce", None)
+        if co is not None:
+            m = co(val)
+            if not getattr(m, "is_just", False):
+                return None
+            val = m.val
+        for p in (getattr(rv, "preprocessors", None) or []):
+            val = p(val)
+        return wire.canon_value(ctx, val)
+    except Exception:  # noqa
+        return None
 
 
 def prov_clean(v: dict, env: List[dict], x: dict, inv: dict, mode: str) -> bool:
